@@ -128,6 +128,11 @@ def make(i, base_seed, tier):
         for _ in range(rng.randint(1, 6)):
             typ = rng.choice([195, 195, 196, 197, 198])
             frm = rng.choice([0o4444, 0o1, 0o3, 0o23, 0o123, 0])
+            if typ == 197:
+                # releases from addresses the master has probably just leased (it hands out 5, 4, 3, ... first)
+                frm = rng.choice([0o5, 0o4, 0o3, 0o41, 0o43, 0o5, 0o4, 0o4444, 0o2])
+            elif typ == 195 and rng.random() < 0.5:
+                frm = 0o4444
             body = bytes(rng.getrandbits(8) for _ in range(rng.choice([0, 0, 1, 2, 3, 4, 24])))
             if typ == 196 and rng.random() < 0.5:
                 body = bytes([rng.choice(ids + [0, 255])])
